@@ -1040,6 +1040,11 @@ void tickit_term_chpen(TickitTerm *tt, const TickitPen *pen)
     if((attr == TICKIT_PEN_FG || attr == TICKIT_PEN_BG) &&
        (index = tickit_pen_get_colour_attr(pen, attr)) >= tt->colors) {
       index = convert_colour(index, tt->colors);
+      /* compare what will be stored, not what was asked for */
+      if(tickit_pen_has_attr(tt->pen, attr) &&
+         tickit_pen_get_colour_attr(tt->pen, attr) == index &&
+         !tickit_pen_has_colour_attr_rgb8(tt->pen, attr))
+        continue;
       tickit_pen_set_colour_attr(tt->pen, attr, index);
       tickit_pen_set_colour_attr(delta, attr, index);
     }
@@ -1066,6 +1071,11 @@ void tickit_term_setpen(TickitTerm *tt, const TickitPen *pen)
     if((attr == TICKIT_PEN_FG || attr == TICKIT_PEN_BG) &&
        (index = tickit_pen_get_colour_attr(pen, attr)) >= tt->colors) {
       index = convert_colour(index, tt->colors);
+      /* compare what will be stored, not what was asked for */
+      if(tickit_pen_has_attr(tt->pen, attr) &&
+         tickit_pen_get_colour_attr(tt->pen, attr) == index &&
+         !tickit_pen_has_colour_attr_rgb8(tt->pen, attr))
+        continue;
       tickit_pen_set_colour_attr(tt->pen, attr, index);
       tickit_pen_set_colour_attr(delta, attr, index);
     }
